@@ -453,8 +453,7 @@ func RunSvc(sim *sched.Sim, c *SvcCase, raceMode bool, setup func(e *Engine)) *S
 			break
 		}
 		idleTime = 0
-		i := sim.Choose(len(acts), "action")
-		sim.Perform(acts[i])
+		sim.Perform(sim.Pick(acts))
 	}
 	return run
 }
